@@ -40,7 +40,7 @@ def run(ctx):
     ctx.cov["rule"] = ("case = (solver, N, scalar type, criterion flavour, system family and coefficients, failure schedule, jacobian "
                        "quality, start, epsilon, iterMax) drawn from (VERIF_SEED, index); distinct = distinct hash of those inputs per "
                        "(API, stratum); non-trivial = every solve (iterMax=0 cases only exercise the counter)")
-    n = ctx.n(120000, 4000000)
+    n = ctx.n(60000, 1500000)
     for name, solver in SOLVERS.items():
         req = [(solver + "/iter", "%s/%s" % (f, m), 20) for f in FAMS for m in FAILS]
         req += [(solver + "/success-sound", "%s/%s" % (f, m), 5) for f in FAMS[:2] for m in FAILS]
